@@ -205,7 +205,10 @@ def run_config(v, ctx, tftpd, thorough, names, cfgname, dist, ow, rng):
     use_strace = thorough and cfgname in ("shared", "distinct+overwrite")
     strace_path = os.path.join(sb["logs"], "strace.out") if use_strace else None
     slash = "/" if "trailing-slash" in cfgname else ""
-    srv = N.Server(tftpd, sb["srv"] + slash, overwrite=ow, send_dir=(sb["srv"] + slash) if dist else None, recv_dir=(sb["rcv"] + slash) if dist else None, logdir=sb["logs"], strace=strace_path, shuffle=rng, d_last=(cfgname == "distinct"))
+    rel = "relative-dir" in cfgname
+    dsrv = os.path.relpath(sb["srv"], sb["root"]) if rel else sb["srv"]
+    drcv = os.path.relpath(sb["rcv"], sb["root"]) if rel else sb["rcv"]
+    srv = N.Server(tftpd, dsrv + slash, overwrite=ow, cwd=sb["root"] if rel else None, send_dir=(dsrv + slash) if dist else None, recv_dir=(drcv + slash) if dist else None, logdir=sb["logs"], strace=strace_path, shuffle=rng, d_last=(cfgname == "distinct"))
     with srv:
         for kind in ("RRQ", "WRQ"):
             B = 24
@@ -294,10 +297,11 @@ def run(tier):
     classes = {}
     strace_seen = 0
     configs = [("shared", False, False), ("distinct", True, False), ("shared+overwrite", False, True), ("distinct+overwrite", True, True),
-               ("shared/trailing-slash", False, False), ("distinct/trailing-slash", True, True)]
+               ("shared/trailing-slash", False, False), ("distinct/trailing-slash", True, True),
+               ("shared/relative-dir", False, False), ("distinct/relative-dir", True, False)]
     import concurrent.futures
     import random
-    with concurrent.futures.ThreadPoolExecutor(max_workers=6) as ex:
+    with concurrent.futures.ThreadPoolExecutor(max_workers=8) as ex:
         futs = [ex.submit(run_config, v, ctx, tftpd, thorough, names, cfgname, dist, ow, random.Random(C.seed() * 7919 + i)) for i, (cfgname, dist, ow) in enumerate(configs)]
         for f in futs:
             e, d, sm, cl, ss = f.result()
